@@ -226,3 +226,72 @@ def model_correspondence(res, name, qs, rs, shard=None):
         res.tie_broken("correspondence: model and implementation differ (lattice, forward scores, or candidate list incl. order and chains)",
                        {"query": qs[idx[i]], "impl_candidates": [c["text"] for c in rs[idx[i]].get("candidates", [])], "impl_panic": rs[idx[i]].get("panic")})
     return len(cases)
+
+
+KKC_PROOF_CONE = KKC_MODEL + ["Kkc/Paths.v", "Kkc/HeapProofs.v", "Kkc/ForwardProofs.v", "Kkc/SearchProofs.v", "Kkc/LatticeWf.v", "Kkc/LatticePaths.v",
+                              "Kkc/LatticeMono.v", "Kkc/LatticeEnum.v", "Kkc/ContextProofs.v", "Kkc/Compose.v", "Kkc/Compose2.v", "Props/C02.v", "Props/Lattice.v"]
+
+
+def theorems_of(props_file):
+    p = os.path.join(COQ, props_file)
+    if not os.path.exists(p):
+        return []
+    return re.findall(r"^Theorem (\w+)", strip_coq_comments(open(p).read()), re.M)
+
+
+def stats(qs, rs):
+    d = {"queries": len(qs), "with_virtual_tail": 0, "multi_candidate": 0, "ties": 0, "truncated": 0, "contexts": {}, "input_len": {}}
+    for q, r in zip(qs, rs):
+        if "panic" in r:
+            continue
+        cs = r["candidates"]
+        d["contexts"][q["context"]] = d["contexts"].get(q["context"], 0) + 1
+        L = len(q["input"])
+        d["input_len"][L] = d["input_len"].get(L, 0) + 1
+        if any(n["kind"] == "virtual" for c in cs for n in c["nodes"]):
+            d["with_virtual_tail"] += 1
+        if len(cs) >= 2:
+            d["multi_candidate"] += 1
+        ps = [c["priority"] for c in cs]
+        if len(set(ps)) < len(ps):
+            d["ties"] += 1
+        if len(cs) == q["n"]:
+            d["truncated"] += 1
+    return d
+
+
+def kkc_run(prop, tier, seed, props_file, extra_cone, predicate, nq_quick=400, nq_thorough=12000, make_q=None, level_note=None, extra_trusted=()):
+    """common driver: proof steps, queries on the implementation, predicate, model correspondence, evidence"""
+    res = Result(prop, tier, seed)
+    rnd = random.Random(seed)
+    thms = theorems_of(props_file)
+    cone = KKC_PROOF_CONE + extra_cone + [props_file]
+    info = standard_proof_steps(res, KKC_GENS, props_file, cone, "Props." + os.path.basename(props_file)[:-2], thms)
+    okh, hlog = build_harness()
+    if not okh:
+        res.tie_broken("harness build failed", hlog[-1500:])
+        return res.finish({"obligations": info["obligations"], "discharged": info["discharged"], "checker_cmd": "make", "trusted_base": TRUSTED_COMMON}, [])
+    nq = nq_quick if tier == "quick" else nq_thorough
+    qs = corpus_queries() + (make_q(rnd, nq) if make_q else make_queries(rnd, nq))
+    rs = harness_parallel(qs, chunk=max(20, len(qs) // 32))
+    nontrivial = 0
+    for q, r in zip(qs, rs):
+        if "panic" in r:
+            res.violation(f"conversion of {q['input']!r} panics: {r['panic']}", {"query": q, "panic": r["panic"]})
+            continue
+        nontrivial += 1 if predicate(res, q, r) else 0
+    n_model = model_correspondence(res, prop, qs, rs)
+    cov = {
+        "obligations": info["obligations"], "discharged": info["discharged"],
+        "checker_cmd": f"cd /verif/coq && make {props_file[:-2]}.vo + Print Assumptions on {len(thms)} theorems",
+        "trusted_base": TRUSTED_COMMON + ["std BinaryHeap modelled by the replica Kkc/Heap.v (order incl. ties compared on every case)",
+                                          "i32 score overflow not modelled (inputs / counts below 2^31 path score)",
+                                          "dictionary = list of words looked up by reading (HashMap keyed by the word's own reading)"] + list(extra_trusted),
+        "axioms": info["axioms"],
+        "evaluations": len(qs), "distinct_nontrivial": nontrivial,
+        "traces_validated_against_impl": n_model,
+        "input_distribution": stats(qs, rs),
+        "samples": [{"input": q["input"], "context": q["context"], "n": q["n"], "std": q["dict"]["std"][:4], "anc": q["dict"]["anc"][:4],
+                     "candidates": [c["text"] for c in r.get("candidates", [])][:5]} for q, r in list(zip(qs, rs))[44:47]],
+    }
+    return res, cov
